@@ -11,7 +11,7 @@ RULE = ("a JSON document (nesting ≤ 4, identifier and non-identifier keys, all
         "over it: scope stacks of each-array / each-object / with / if / partial up to depth 5, value- and path-based scopes "
         "(literal and subexpression arguments), paths with every separator/prefix spelling, 0..k '../', @root, block-parameter "
         "heads with shadowed fields, @index/@key/@first/@last/@../x; observed through {{p}}, {{lookup o k}} and a probe helper "
-        "calling RenderContext::evaluate; non-trivial = the reference renderer gives a definite output; distinct by output text")
+        "calling RenderContext::evaluate; bare segments made of every class of the grammar's symbol characters (ASCII letters, digits, - _ $ :, and the ends of the three non-ASCII ranges U+0080, U+07FF, U+0800, U+FFFF, U+10000, U+10FFFF) in nine spellings each; non-trivial = the reference renderer gives a definite output; distinct by output text")
 DEFINITE_FLOOR = 0.5
 ASSUMPTIONS = ["block-parameter heads are looked up regardless of ../ ./ this. (reading fixed toward the code)",
                "a non-numeric segment applied to an array is outside the property (oracle: any)",
@@ -92,6 +92,20 @@ def generate(rng, n, tier="quick"):
         c, m = r
         c["id"] = "%s-%06d" % (ID, i)
         out.append((c, m))
+    # directed: every kind of character a bare path segment may be made of (the classes of the grammar's symbol_char, at the
+    # ends of its code-point ranges), in the spellings {{k}}, {{this.k}}, {{./k}}, {{o/k}}, {{../k}} inside with, {{@root.k}},
+    # as a helper argument and as an each collection – the segment designates the field of that name
+    chars = ["a", "Z", "0", "-", "_", "$", ":", "\u0080", "\u07ff", "\u0800", "\uffff", "\U00010000", "\U0001F600", "\U0010ffff", "\u00e9", "\u4e2d"]
+    d = 0
+    for ch in chars:
+        for key in (ch if ch not in "0-" else "k" + ch, "k" + ch + "z", ch + ch if ch not in "0-" else "k" + ch + ch):
+            data = {key: "V", "o": {key: "W"}, "xs": {key: [1, 2]}}
+            src = ("[{{%s}}|{{this.%s}}|{{./%s}}|{{o/%s}}|{{#with o}}{{../%s}}{{/with}}|{{@root.%s}}|{{lookup o \"%s\"}}|"
+                   "{{#each xs.%s}}{{this}}{{/each}}|{{#if %s}}T{{/if}}]") % ((key,) * 9)
+            case = session({"escape": "none"}, [("main", src)], {"api": "render", "name": "main"}, data)
+            case["id"] = "%s-sym%03d" % (ID, d)
+            d += 1
+            out.append((case, {"mode": "symchar", "oracle": ["must", "[V|V|V|W|V|V|W|12|T]"]}))
     return out
 
 
